@@ -1045,6 +1045,16 @@ class Intrinsics:
             return rne_frac(Fraction(v), digits)
         return rne_fix(to_fix(v), digits)
 
+    def s_fpy_rnd_mode(self, P, v, digits, mode):
+        """bounded dialect: v rounded at `digits` digits under the named rounding mode (pyvc/fpyround.py)"""
+        from .fpydialect import to_fix
+        from .fpyround import rnd_fix, rnd_frac
+        if not isinstance(digits, int) or not isinstance(mode, str):
+            raise InterpError('fpy_rnd_mode needs a concrete number of digits and a mode name')
+        if isinstance(v, (int, Fraction)) and not is_z3(v):
+            return rnd_frac(Fraction(v), digits, mode)
+        return rnd_fix(to_fix(v), digits, mode)
+
     def s_fpy_finite(self, P, ctx, v):
         return True
 
